@@ -1,0 +1,11 @@
+//go:build !verif
+
+// Package verifhook provides named yield points for the verification harness.
+// Without the build tag `verif` every function is an empty no-op.
+package verifhook
+
+func Point(site string) {}
+
+func Stop(site string) bool { return false }
+
+const Enabled = false
